@@ -35,9 +35,17 @@ What the interpreter follows:
 Anything else (unknown SQL, dynamic SQL text, executemany/executescript/rollback, calls on the
 connection other than cursor/execute/commit, the connection / a cursor / self handed to code
 that is not a method of the class, unknown decorators on public methods ...) raises
-Unrecognised: the check then treats the tie as broken.  A JSON side file tells the harness how
-each model argument is computed from the Python arguments (parameter + accessor chain + column
-affinity) and carries the programs for the trace cross-check (harness/c13_tracecheck.py).
+Unrecognised by this SYNTACTIC path.
+
+Second path, MEASURED (harness/c13_tracecheck.py runs the real classes over a tracing connection
+with sentinel arguments; `build_measured` / `measured_method` below turn the traces into the same
+model).  `extract` decides: source recognised -> the syntactic model is written and must reproduce
+everything measured ("syntactic+measured (agree)", else "... (DISAGREE)" = tie broken); source not
+recognised -> the model is built from the measurement when every state variant of a method gives
+one statement/commit skeleton ("measured only (source shape not recognised: ...)"); neither ->
+Unrecognised, a store definition that fails `store_ok` is written and the tie is broken.  A JSON
+side file tells the harness how each model argument is computed from the Python arguments
+(parameter + accessor chain + column affinity) and which path produced it (`extraction`).
 """
 import ast, os, re, json
 from ..env import REPO, VERIF
@@ -950,7 +958,7 @@ class ProgBuilder(object):
             if e[0] == "end" or (e[0] == "branch" and e[1]):
                 fail(where, "early exit in a method that writes (%s)" % (e[-1],))
         effective = effective[:last + 1]
-        self.args, self.loop, self.loop_aff = [], None, None
+        self.begin()
         prog = []
         for e in effective:
             if e[0] == "commit":
@@ -964,6 +972,10 @@ class ProgBuilder(object):
                 self.loop = e[1]
                 prog.append(("each", self.statement(e[2], e[3], where)))
         return prog, self.args, self.loop, notes
+
+    def begin(self):
+        """start a new method: no argument registered yet"""
+        self.args, self.loop, self.loop_aff = [], None, None
 
     def vref(self, sym, affinity, where):
         if isinstance(sym, Const):
@@ -1075,6 +1087,12 @@ def _is_docstring(st):
 
 
 def translate(repo=None):
+    """syntactic path only: source -> (Coq text, meta)"""
+    return emit(analyse(repo))
+
+
+def analyse(repo=None):
+    """The syntactic interpreter: source -> model dict (see emit)."""
     repo = repo or REPO
     tables, classes = {}, {}
     CONN_ATTRS.clear()
@@ -1182,9 +1200,8 @@ def translate(repo=None):
                 skipped.append({"class": cname, "name": mname,
                                 "reason": "writes without committing: only meaningful inside its callers"})
                 continue
-            selects = [e[1] for e in events if e[0] == "sql" and e[1]["verb"] == "select"]
-            meths.append({"id": len(meths), "class": cname, "name": mname, "params": params, "prog": prog,
-                          "args": args, "loop": loop, "selects": selects, "public": public})
+            meths.append({"class": cname, "name": mname, "params": params, "prog": prog,
+                          "args": args, "loop": loop, "public": public})
             notes += nts
     for s in skipped:
         notes.append("private helper %s.%s is not a method of the model on its own (%s); it is interpreted "
@@ -1217,17 +1234,32 @@ def translate(repo=None):
     for a in iargs:
         if not a["root"].startswith("gen:"):
             fail(w, "initialisation stores a value that is not generated there")
+    for m in meths:
+        m["static"] = method_kind(classes[m["class"]][1][m["name"]]) == "static"
+    return {"tables": tables, "names": names, "meths": meths, "skipped": skipped, "facade": facade, "notes": notes,
+            "init": {"class": cname, "gtable": gtable, "gkey": gkey, "args": iargs, "prog": iprog},
+            "header": "from %s/*.py" % STORE_DIR}
+
+
+def emit(model):
+    """model dict -> (text of coq/Gen/C13Programs.v, meta for the harness).  Shared by the syntactic and
+    the measured path: model = tables (name -> cols/key), names (table order), meths (class, name, params,
+    prog, args, loop, public, static), init (class, gtable, gkey, args, prog), facade, notes, skipped."""
+    tables, names, meths, notes = model["tables"], model["names"], model["meths"], model["notes"]
+    tids = {n: i for i, n in enumerate(names)}
+    for i, m in enumerate(meths):
+        m["id"] = i
+    cname, gtable, gkey = model["init"]["class"], model["init"]["gtable"], model["init"]["gkey"]
+    iargs, iprog = model["init"]["args"], model["init"]["prog"]
     gaff = [c["affinity"] for c in tables[gtable]["cols"] if c["name"] == tables[gtable]["key"][0]][0]
     meta = {"tables": [{"id": tids[n], "name": n, "key": tables[n]["key"],
                         "nonkey": [c["name"] for c in tables[n]["cols"] if not c["rowid"] and c["name"] not in tables[n]["key"]],
                         "affinity": {c["name"]: c["affinity"] for c in tables[n]["cols"]}} for n in names],
-            "methods": [{k: m[k] for k in ("id", "class", "name", "params", "args", "loop", "public", "prog")}
-                        | {"writes": bool(m["prog"]),
-                           "static": method_kind(classes[m["class"]][1][m["name"]]) == "static",
-                           "loop_affinity": None} for m in meths],
+            "methods": [{k: m[k] for k in ("id", "class", "name", "params", "args", "loop", "public", "prog", "static")}
+                        | {"writes": bool(m["prog"]), "loop_affinity": None} for m in meths],
             "init": {"class": cname, "guard_table": tids[gtable], "guard_key": gkey, "args": iargs, "prog": iprog},
-            "skipped": skipped,
-            "facade": facade, "notes": notes}
+            "skipped": model["skipped"],
+            "facade": model["facade"], "notes": notes}
     # loop affinities
     for m, mm in zip(meths, meta["methods"]):
         if m["loop"] is not None:
@@ -1244,7 +1276,7 @@ def translate(repo=None):
                         if v == ("loop",):
                             mm["loop_affinity"] = T["affinity"][T["nonkey"][ci]]
     # Coq text
-    L = ["(* GENERATED by harness/translators/c13_store.py from %s/*.py -- do not edit *)" % STORE_DIR,
+    L = ["(* GENERATED by harness/translators/c13_store.py %s -- do not edit *)" % model["header"],
          "From YV Require Import Common.Tac C13.C13Model.", ""]
     for t in meta["tables"]:
         L.append("(* table %d = %s   key %s   other columns %s *)" % (t["id"], t["name"], t["key"], t["nonkey"]))
@@ -1319,6 +1351,392 @@ def translate_facade(repo, classes):
     return {"methods": out, "attrs": attr_class}
 
 
+# ---------------------------------------------------------------- the MEASURED path
+class Inconclusive(Unrecognised):
+    """the measurement of a method says nothing (the sentinels made it raise something unrelated)"""
+
+
+def _sym(d):
+    if d[0] == "arg":
+        return Val(d[1], d[2])
+    if d[0] == "loop":
+        return Loop()
+    if d[0] == "const":
+        v = d[1]
+        if isinstance(v, dict):
+            v = bytes.fromhex(v["b"]) if "b" in v else v["s"]
+        return Const(v)
+    return None
+
+
+def _norm_items(items):
+    """drop commits that cannot be observed: nothing was written since the previous commit"""
+    out, dirty = [], False
+    for it in items:
+        if it[0] == "commit":
+            if dirty:
+                out.append(it)
+            dirty = False
+        else:
+            out.append(it)
+            dirty = True
+    return out
+
+
+def _show(items):
+    def one(it):
+        if it[0] == "commit":
+            return "COMMIT"
+        s = it[1]
+        return "%s t%d%s" % (s[0].upper(), s[2] if s[0] == "insert" else s[1], "" if len(it) < 3 or it[2] is None else "[%d]" % it[2])
+    return "[" + ", ".join(one(i) for i in items) + "]"
+
+
+def _run_items(pb, run, where, loopp=None, ddl_ok=False, gen=None):
+    """one traced run -> (items, ending).  items: ("s", statement, loop index | None) | ("commit",);
+    ending: "normal" | "integrity" (IntegrityError propagated from the last statement, a plain INSERT)
+    | "handled" (an IntegrityError was raised by a statement and the method went on) | "other:<exception>"."""
+    items, raised_idx, notes = [], [], []
+    began = False
+    for e in run["events"]:
+        k = e[0]
+        if k == "BEGIN":
+            began = True
+            continue
+        if k == "COMMIT":
+            items.append(("commit",))
+            continue
+        if k == "ROLLBACK":
+            if raised_idx and raised_idx[-1] == len(items) - 1:
+                notes.append("ROLLBACK after the raising statement at %s ignored (the model leaves the transaction "
+                             "open; what was pending is lost either way)" % where)
+                continue
+            fail(where, "a ROLLBACK is issued (not in the model language)")
+        if k in ("OTHER", "UNATTRIBUTED", "BADSQL"):
+            fail(where, "%s: %s" % ({"OTHER": "unsupported database call", "UNATTRIBUTED": "statement run behind the "
+                                     "tracer's back", "BADSQL": "dynamic SQL"}[k], e[1]))
+        sql, descs, exc = e[1], e[2], e[3]
+        verb = (sql.lstrip().split(None, 1) or [""])[0].upper()
+        if ddl_ok and verb == "CREATE":
+            continue
+        if verb in ("PRAGMA",):
+            continue
+        p = parse_sql(sql, where)
+        if p["verb"] == "select":
+            if exc:
+                return items, "other:%s" % exc, notes
+            continue
+        if gen:
+            descs = [_gen_desc(d, gen) for d in descs]
+        bad = [d for d in descs if d[0] == "bad"]
+        if bad:
+            fail(where, "a parameter of %r is %s" % (_norm(sql)[:50], bad[0][1]))
+        idx = set(d[2] for d in descs if d[0] == "loop")
+        if len(idx) > 1 or any(d[0] == "loop" and d[1] != loopp for d in descs):
+            fail(where, "loop elements mixed in one statement")
+        stmt = pb.statement(p, [_sym(d) for d in descs], where)
+        items.append(("s", stmt, idx.pop() if idx else None))
+        began = False
+        if exc:
+            if exc != "IntegrityError":
+                return items, "other:%s" % exc, notes
+            raised_idx.append(len(items) - 1)
+    exc = run["exc"][0] if run["exc"] else None
+    if began:
+        raise Inconclusive("%s: a transaction was opened but the statement that opened it was not seen (the call "
+                           "raised %s)" % (where, exc))
+    if raised_idx:
+        last_is_plain_insert = items[-1][0] == "s" and items[-1][1][0] == "insert" and not items[-1][1][1]
+        if exc == "IntegrityError" and raised_idx == [len(items) - 1] and last_is_plain_insert:
+            return items, "integrity", notes
+        return items, "handled", notes
+    return items, ("normal" if exc is None else "other:%s" % exc), notes
+
+
+def _gen_desc(d, gen):
+    """constructor runs: a bound constant that is one of the generated values read back through the API"""
+    if d[0] == "const" and gen:
+        v = d[1]
+        if isinstance(v, int) and not isinstance(v, bool) and v == gen.get("regid"):
+            return ["arg", "gen:registration_id", []]
+        if isinstance(v, dict) and "b" in v:
+            for chain, hx in gen.items():
+                if chain != "regid" and hx == v["b"]:
+                    return ["arg", "gen:identity", chain.split(".")]
+    return d
+
+
+def _strip(items):
+    return [(i[0],) if i[0] == "commit" else (i[0], i[1], i[2]) for i in items]
+
+
+def measured_method(pb, cname, mname, m):
+    """-> (prog, args, loop parameter, notes) from the traced runs of one public method"""
+    where = "measured:%s.%s" % (cname, mname)
+    if m.get("special"):
+        fail(where, "special method of a store class")
+    if m["error"]:
+        fail(where, m["error"])
+    if not m["runs"]:
+        fail(where, "not measured")
+    pb.begin()
+    notes = []
+    parsed = []
+    for r in m["runs"]:
+        items, ending, nts = _run_items(pb, r, where, m["loop"])
+        parsed.append((r, _norm_items(_strip(items)), ending))
+        notes += nts
+    label = lambda r: "%s%s" % (r["variant"], "" if r["k"] is None else "/%d elements" % r["k"])
+    if all(not it for _, it, _ in parsed):
+        return [], [], None, notes             # never writes, whatever it raises
+    if m["loop"] is None:
+        r0, full, end0 = parsed[0]
+        if end0 != "normal":
+            if end0.startswith("other:"):
+                raise Inconclusive("%s: raised %s with sentinel arguments" % (where, end0[6:]))
+            fail(where, "raises IntegrityError on an empty store")
+        for r, it, ending in parsed[1:]:
+            if ending == "handled":
+                fail(where, "behaviour depends on the stored state beyond what the model language expresses: in "
+                            "variant %s an IntegrityError is handled by further statements %s (variant A: %s)"
+                     % (label(r), _show(it), _show(full)))
+            if ending == "integrity":
+                if it != full[:len(it)]:
+                    fail(where, "statement sequence differs between state variants: A %s, %s %s" % (_show(full), label(r), _show(it)))
+            elif it != full:
+                if ending.startswith("other:") and it == full[:len(it)]:
+                    raise Inconclusive("%s: raised %s in variant %s" % (where, ending[6:], label(r)))
+                fail(where, "behaviour depends on the stored state beyond what the model language expresses: "
+                            "variant A %s, variant %s %s" % (_show(full), label(r), _show(it)))
+        prog = [("commit",) if i[0] == "commit" else ("s", i[1]) for i in full]
+        return prog, pb.args, None, notes
+    # a list parameter: one write per element, everything else outside
+    one = next((it for r, it, e in parsed if r["k"] == 1 and r["variant"] == "A" and e == "normal"), None)
+    if one is None:
+        raise Inconclusive("%s: the run with one list element did not end normally" % where)
+    pos = [i for i, x in enumerate(one) if x[0] == "s" and x[2] is not None]
+    if len(pos) != 1:
+        fail(where, "a list element is used by %d statements (the model language has one write per element)" % len(pos))
+    for r, it, ending in parsed:
+        if ending != "normal":
+            fail(where, "variant %s does not end normally (%s)" % (label(r), ending))
+        want = one[:pos[0]] + [("s", one[pos[0]][1], i) for i in range(r["k"])] + one[pos[0] + 1:]
+        if it != _norm_items(want):
+            fail(where, "statement sequence is not 'one write per element, the rest outside the loop': variant %s "
+                        "gives %s, expected %s" % (label(r), _show(it), _show(_norm_items(want))))
+    prog = [("commit",) if x[0] == "commit" else (("each" if x[2] is not None else "s"), x[1]) for x in one]
+    return prog, pb.args, m["loop"], notes
+
+
+def measured_tables(obs):
+    tables = {}
+    for t in obs["schema"]:
+        cols = [{"name": c["name"], "affinity": _affinity(c["decl"].split("(")[0].strip()), "rowid": bool(c["pk"]),
+                 "unique": False} for c in t["cols"]]
+        if sum(1 for c in cols if c["rowid"]) != 1:
+            fail("measured schema", "expected exactly one rowid column in %s" % t["name"])
+        if len(t["unique"]) != 1:
+            fail("measured schema", "table %s has %d UNIQUE constraints" % (t["name"], len(t["unique"])))
+        tables[t["name"]] = {"name": t["name"], "cols": cols, "key": list(t["unique"][0])}
+    return tables
+
+
+def measured_facade(obs):
+    attrs = obs["facade"]["attrs"]
+    out = {}
+    for fname, rec in sorted(obs["facade"]["methods"].items()):
+        w = "measured:%s.%s" % (obs["facade"]["class"], fname)
+        if rec.get("error"):
+            fail(w, rec["error"])
+        if rec["exc"] or len(rec["calls"]) != 1 or rec["events"]:
+            fail(w, "is not a plain delegation to one sub-store method (%d calls, exception %s, %d database events)"
+                 % (len(rec["calls"]), rec["exc"], len(rec["events"])))
+        attr, meth, args, kw = rec["calls"][0]
+        if kw or args != [["arg", p, []] for p in rec["params"]]:
+            fail(w, "does not hand exactly its own arguments on, in order")
+        out[fname] = {"attr": attr, "method": meth, "class": attrs[attr]}
+    return {"methods": out, "attrs": attrs}
+
+
+def measured_init(pb, obs):
+    """-> (class, prog, args, gtable, gkey, notes): the guarded initialisation as observed"""
+    inits = []
+    for cname, info in sorted(obs["classes"].items()):
+        where = "measured:%s.__init__" % cname
+        runs = {r["variant"]: r for r in info["init"]}
+        for r in info["init"]:
+            if r["exc"]:
+                fail(where, "constructor raised %s (%s)" % (r["exc"][0], r["variant"]))
+        pb.begin()
+        per = {}
+        for v in ("fresh", "again", "wiped", "fresh2"):
+            items, ending, _ = _run_items(pb, runs[v], where, ddl_ok=True, gen=runs[v]["gen"])
+            if ending != "normal":
+                fail(where, "constructor run '%s' ends with %s" % (v, ending))
+            per[v] = _norm_items(_strip(items))
+        if not any(per.values()):
+            continue
+        if per["again"]:
+            fail(where, "the constructor writes although what it initialises is already stored: %s" % _show(per["again"]))
+        if not per["fresh"] or per["fresh"] != per["wiped"] or per["fresh"] != per["fresh2"]:
+            fail(where, "the constructor's writes differ between a fresh database %s, a second one %s and an emptied "
+                        "one %s (a stored value that is neither constant nor read back through the API?)"
+                 % (_show(per["fresh"]), _show(per["fresh2"]), _show(per["wiped"])))
+        inits.append((cname, [("commit",) if i[0] == "commit" else ("s", i[1]) for i in per["fresh"]], list(pb.args)))
+    if len(inits) != 1:
+        fail("measured", "%d store classes initialise data in their constructor (expected the identity store only)" % len(inits))
+    cname, prog, args = inits[0]
+    first = next((i[1] for i in prog if i[0] == "s"), None)
+    if first is None or first[0] != "insert" or len(first[3]) != 1 or first[3][0][0] != "const":
+        fail("measured:%s.__init__" % cname, "the initialisation does not start by inserting one row under a constant key")
+    cell = first[3][0][1]
+    if not re.fullmatch(rb"i-?\d+", cell):
+        fail("measured:%s.__init__" % cname, "the own row's key is not an integer constant")
+    for a in args:
+        if not a["root"].startswith("gen:"):
+            fail("measured:%s.__init__" % cname, "initialisation stores a value that is not generated there")
+    tname = [n for n, i in pb.tids.items() if i == first[2]][0]
+    return cname, prog, args, tname, int(cell[1:])
+
+
+def build_measured(obs, reason):
+    """observation of harness/c13_tracecheck.py -> model dict (see emit); Unrecognised when what was observed
+    cannot be written in the model language"""
+    c = obs["conn"]
+    if not c["text_factory_bytes"]:
+        fail("measured connection", "text_factory is not bytes")
+    if c["isolation_level"] not in ("", "DEFERRED") or c["autocommit"] != -1:
+        fail("measured connection", "not in sqlite3's default implicit-transaction mode (isolation_level=%r, "
+                                    "autocommit=%r)" % (c["isolation_level"], c["autocommit"]))
+    if c["in_transaction_after_init"]:
+        fail("measured connection", "constructing the stores leaves a transaction open")
+    tables = measured_tables(obs)
+    for t in tables.values():
+        if not t["key"]:
+            fail("measured schema", "table %s has no UNIQUE key" % t["name"])
+    names = [t for t in KNOWN_TABLES if t in tables] + sorted(t for t in tables if t not in KNOWN_TABLES)
+    tids = {n: i for i, n in enumerate(names)}
+    pb = ProgBuilder(tables, tids)
+    facade = measured_facade(obs)
+    if len(facade["attrs"]) != len(STORE_FILES):
+        fail("measured facade", "the facade holds %d sub-stores, expected %d" % (len(facade["attrs"]), len(STORE_FILES)))
+    api = set((v["class"], v["method"]) for v in facade["methods"].values())
+    meths, notes = [], []
+    for cname in sorted(obs["classes"]):
+        for mname, m in sorted(obs["classes"][cname]["methods"].items()):
+            if not (m["public"] or (cname, mname) in api):
+                continue
+            prog, args, loop, nts = measured_method(pb, cname, mname, m)
+            notes += nts
+            meths.append({"class": cname, "name": mname, "params": m["params"], "prog": prog, "args": list(args),
+                          "loop": loop, "public": True, "static": m["static"]})
+    for (cn, mn) in sorted(api):
+        if not any(x["class"] == cn and x["name"] == mn for x in meths):
+            fail("measured facade", "delegates to %s.%s, which was not measured" % (cn, mn))
+    icls, iprog, iargs, gtable, gkey = measured_init(pb, obs)
+    notes.append("MEASURED programs (source shape not recognised by the syntactic interpreter: %s): every public "
+                 "method run on the real class over a tracing connection in the state variants absent / present / "
+                 "conflicting (lists: 0, 1, 3 elements), constructors on fresh / initialised / emptied databases; "
+                 "private helpers are not methods of their own" % reason)
+    return {"tables": tables, "names": names, "meths": meths, "skipped": [], "facade": facade, "notes": notes,
+            "init": {"class": icls, "gtable": gtable, "gkey": gkey, "args": iargs, "prog": iprog},
+            "header": "MEASURED on the classes of %s (harness/c13_tracecheck.py)" % STORE_DIR}
+
+
+def _canon_prog(prog):
+    """program up to unobservable commits, as comparable nested lists"""
+    items = _norm_items([("commit",) if t[0] == "commit" else (t[0], t[1]) for t in prog])
+    return json.loads(json.dumps(items, default=lambda b: b.hex() if isinstance(b, bytes) else str(b)))
+
+
+def compare_models(syn, obs):
+    """Does the syntactic model reproduce everything that was measured?
+    -> {"compared", "agree", "inconclusive": [...], "disagreements": [...]}"""
+    rep = {"compared": 0, "agree": 0, "inconclusive": [], "disagreements": []}
+
+    def check(what, f):
+        rep["compared"] += 1
+        try:
+            d = f()
+        except Inconclusive as e:
+            rep["inconclusive"].append("%s: %s" % (what, e))
+            return
+        except Unrecognised as e:
+            d = "measured: %s" % e
+        if d:
+            rep["disagreements"].append({"what": what, "detail": str(d)[:600]})
+        else:
+            rep["agree"] += 1
+    tables = syn["tables"]
+    tids = {n: i for i, n in enumerate(syn["names"])}
+
+    def conn():
+        try:
+            build_conn_only(obs)
+        except Unrecognised as e:
+            return str(e)
+    check("connection", conn)
+
+    def schema():
+        mt = measured_tables(obs)
+        view = lambda T: {n: (t["key"], [(c["name"], c["affinity"], c["rowid"]) for c in t["cols"]]) for n, t in T.items()}
+        if view(mt) != view(tables):
+            return "schema read back from SQLite %s differs from the CREATE statements in the source %s" % (view(mt), view(tables))
+    check("schema", schema)
+
+    def facade():
+        mf = measured_facade(obs)
+        if mf != syn["facade"]:
+            diff = [k for k in set(mf["methods"]) | set(syn["facade"]["methods"])
+                    if mf["methods"].get(k) != syn["facade"]["methods"].get(k)]
+            return "facade delegations differ: %s" % sorted(diff)[:6]
+    check("facade", facade)
+    pb = ProgBuilder(tables, tids)
+    smeth = {(m["class"], m["name"]): m for m in syn["meths"]}
+    seen = set()
+    for cname in sorted(obs["classes"]):
+        for mname, m in sorted(obs["classes"][cname]["methods"].items()):
+            if not m["public"]:
+                continue
+            seen.add((cname, mname))
+
+            def one(cname=cname, mname=mname, m=m):
+                sm = smeth.get((cname, mname))
+                if sm is None:
+                    return "public method found on the class but not by the syntactic interpreter"
+                prog, args, loop, _ = measured_method(pb, cname, mname, m)
+                a = (_canon_prog(prog), [(x["root"], list(x["chain"]), x["affinity"]) for x in args], loop)
+                b = (_canon_prog(sm["prog"]), [(x["root"], list(x["chain"]), x["affinity"]) for x in sm["args"]], sm["loop"])
+                if a != b:
+                    return "measured %s  vs  syntactic %s" % (a, b)
+            check("%s.%s" % (cname, mname), one)
+    for (cn, mn), sm in sorted(smeth.items()):
+        if sm["public"] and (cn, mn) not in seen:
+            rep["compared"] += 1
+            rep["disagreements"].append({"what": "%s.%s" % (cn, mn), "detail": "translated from the source but not found on the class"})
+
+    def init():
+        icls, iprog, iargs, gtable, gkey = measured_init(pb, obs)
+        si = syn["init"]
+        a = (icls, _canon_prog(iprog), [x["affinity"] for x in iargs], gtable, gkey)
+        b = (si["class"], _canon_prog(si["prog"]), [x["affinity"] for x in si["args"]], si["gtable"], si["gkey"])
+        if a != b:
+            return "measured %s  vs  syntactic %s" % (a, b)
+    check("guarded initialisation", init)
+    return rep
+
+
+def build_conn_only(obs):
+    c = obs["conn"]
+    if not c["text_factory_bytes"]:
+        fail("measured connection", "text_factory is not bytes")
+    if c["isolation_level"] not in ("", "DEFERRED") or c["autocommit"] != -1:
+        fail("measured connection", "not in sqlite3's default implicit-transaction mode (isolation_level=%r, "
+                                    "autocommit=%r)" % (c["isolation_level"], c["autocommit"]))
+    if c["in_transaction_after_init"]:
+        fail("measured connection", "constructing the stores leaves a transaction open")
+
+
 FALLBACK_V = """(* GENERATED: the translator failed closed (%s) *)
 From YV Require Import Common.Tac C13.C13Model.
 Definition gen_width (t : N) : nat := 0%%nat.
@@ -1328,13 +1746,72 @@ Definition gen_store : store_def := mkStore gen_width [] (0%%N, []) gen_init_pro
 """
 
 
-def regenerate(repo=None):
-    """Rewrite coq/Gen/C13Programs.{v,json}; returns the meta dict.  On unrecognised source a
-    store definition that fails `store_ok` is written (so no theorem can be instantiated) and
-    Unrecognised is re-raised."""
+def extract(repo=None, scratch=None):
+    """Both extractions and the decision which one the generated file comes from.
+    -> (text, meta) with meta["extraction"] = {path, syntactic_error, measure_error, measured_error, compared,
+    agree, inconclusive, disagreements}.  path is one of
+       "syntactic+measured (agree)"            the syntactic model reproduces everything measured
+       "syntactic+measured (DISAGREE)"         it does not: tie broken (the syntactic file is still written)
+       "syntactic only (measurement unavailable: ...)"   tie broken
+       "measured only (source shape not recognised: ...)"
+    Unrecognised (with .extraction) when neither path yields a model."""
+    from .. import c13_tracecheck as tc
+    repo = repo or REPO
+    ex = {"path": None, "syntactic_error": None, "measure_error": None, "measured_error": None, "compared": 0,
+          "agree": 0, "inconclusive": [], "disagreements": []}
+    syn = obs = None
+    try:
+        syn = analyse(repo)
+    except Unrecognised as e:
+        ex["syntactic_error"] = str(e)
+    own = None
+    if scratch is None:
+        import tempfile
+        own = scratch = tempfile.mkdtemp(prefix="c13-measure-")
+    try:
+        obs = tc.measure(repo, scratch)
+    except tc.MeasureError as e:
+        ex["measure_error"] = str(e)
+    finally:
+        if own:
+            import shutil
+            shutil.rmtree(own, ignore_errors=True)
+    if syn is not None:
+        if obs is None:
+            ex["path"] = "syntactic only (measurement unavailable: %s)" % ex["measure_error"][:300]
+        else:
+            rep = compare_models(syn, obs)
+            ex.update(rep)
+            ex["path"] = "syntactic+measured (agree)" if not rep["disagreements"] else "syntactic+measured (DISAGREE)"
+        text, meta = emit(syn)
+    else:
+        err = None
+        if obs is None:
+            err = "syntactic: %s; measurement unavailable: %s" % (ex["syntactic_error"], ex["measure_error"])
+        else:
+            try:
+                model = build_measured(obs, ex["syntactic_error"])
+                text, meta = emit(model)
+                ex["path"] = "measured only (source shape not recognised: %s)" % ex["syntactic_error"][:300]
+            except Unrecognised as e:
+                ex["measured_error"] = str(e)
+                err = "syntactic: %s; measured: %s" % (ex["syntactic_error"], e)
+        if err is not None:
+            ex["path"] = "none (%s)" % err[:600]
+            u = Unrecognised(err)
+            u.extraction = ex
+            raise u
+    meta["extraction"] = ex
+    return text, meta
+
+
+def regenerate(repo=None, scratch=None):
+    """Rewrite coq/Gen/C13Programs.{v,json}; returns the meta dict (meta["extraction"] says which path produced
+    it).  When neither the syntactic interpreter nor the measurement yields a model, a store definition that
+    fails `store_ok` is written (so no theorem can be instantiated) and Unrecognised is re-raised."""
     os.makedirs(os.path.dirname(GEN_V), exist_ok=True)
     try:
-        text, meta = translate(repo)
+        text, meta = extract(repo, scratch)
     except Unrecognised as e:
         _write(GEN_V, FALLBACK_V % str(e).replace("*)", "* )"))
         _write(GEN_JSON, json.dumps({"error": str(e)}))
